@@ -67,7 +67,7 @@ func (u *Unit) zeroOfSort(t types.Type, so string) string {
 	case *types.Slice:
 		es := u.sortOf(ut.Elem())
 		ea := u.d.constant("emptyarr_"+mangle(es), "(Array Int "+es+")")
-		return app("mk_"+so, ea, "0", "0", "true")
+		return app("mk_"+so, ea, "0", "true")
 	case *types.Array:
 		return app(fmt.Sprintf("(as const %s)", so), u.zero(ut.Elem()).T)
 	case *types.Map:
@@ -151,15 +151,12 @@ func (u *Unit) constVal(cv constant.Value, t types.Type) Val {
 // ---- slices ----
 
 func (u *Unit) sliceParts(v Val) (arr, off, ln, isnil string) {
-	return app("sarr_"+v.So, v.T), app("soff_"+v.So, v.T), app("slen_"+v.So, v.T), app("snil_"+v.So, v.T)
+	return app("sarr_"+v.So, v.T), "0", app("slen_"+v.So, v.T), app("snil_"+v.So, v.T)
 }
 
 func (u *Unit) sliceAt(v Val, i string) string {
-	arr, off, _, _ := u.sliceParts(v)
-	if off == app("soff_"+v.So, v.T) && strings.HasPrefix(v.T, "(mk_"+v.So+" ") {
-		// constructor applied: let the solver simplify
-	}
-	return app("select", arr, sAdd(off, i))
+	arr, _, _, _ := u.sliceParts(v)
+	return app("select", arr, i)
 }
 
 func sAdd(a, b string) string {
@@ -180,13 +177,31 @@ func sSub(a, b string) string {
 }
 
 func (u *Unit) mkSlice(so, arr, off, ln, isnil string) string {
-	return app("mk_"+so, arr, off, ln, isnil)
+	if off != "0" {
+		panic("mkSlice with offset")
+	}
+	return app("mk_"+so, arr, ln, isnil)
+}
+
+// subSlice builds s[lo:hi]. With lo == 0 the array is shared; otherwise an uninterpreted
+// function with shifting axioms is used (no arithmetic inside quantifier triggers).
+func (u *Unit) subSlice(v Val, lo, hi string) string {
+	arr, _, _, _ := u.sliceParts(v)
+	if lo == "0" {
+		return app("mk_"+v.So, arr, hi, "false")
+	}
+	fn := "subslice_" + v.So
+	if u.d.add("f:"+fn, fmt.Sprintf("(declare-fun %s (%s Int Int) %s)", fn, v.So, v.So)) {
+		u.d.axiom(fn+".len", fmt.Sprintf("(forall ((s %s) (a Int) (b Int)) (! (and (= (slen_%s (%s s a b)) (- b a)) (not (snil_%s (%s s a b)))) :pattern ((%s s a b))))", v.So, v.So, fn, v.So, fn, fn))
+		u.d.axiom(fn+".elem", fmt.Sprintf("(forall ((s %s) (a Int) (b Int) (i Int)) (! (= (select (sarr_%s (%s s a b)) i) (select (sarr_%s s) (+ a i))) :pattern ((select (sarr_%s (%s s a b)) i))))", v.So, v.So, fn, v.So, v.So, fn))
+	}
+	return app(fn, v.T, lo, hi)
 }
 
 // normSlice introduces a fresh constant for a slice value together with its well-formedness facts.
 func (u *Unit) sliceWF(v Val) string {
-	_, off, ln, isnil := u.sliceParts(v)
-	return sAnd(app(">=", ln, "0"), app(">=", off, "0"), sImp(isnil, sEq(ln, "0")))
+	_, _, ln, isnil := u.sliceParts(v)
+	return sAnd(app(">=", ln, "0"), sImp(isnil, sEq(ln, "0")))
 }
 
 func (u *Unit) mapWF(v Val) string {
@@ -902,19 +917,19 @@ func (u *Unit) evalSliceExpr(st *State, x *ast.SliceExpr) Val {
 	}
 	switch bt := base.Ty.Underlying().(type) {
 	case *types.Slice:
-		arr, off, ln, _ := u.sliceParts(base)
+		_, _, ln, _ := u.sliceParts(base)
 		if hi == "" {
 			hi = ln
 		}
 		u.safe("slice", x.Pos(), st, sAnd(app("<=", "0", lo), app("<=", lo, hi), app("<=", hi, ln)), "0 <= lo <= hi <= len (capacity is not modelled)")
-		return Val{T: u.mkSlice(base.So, arr, sAdd(off, lo), sSub(hi, lo), "false"), Ty: rt, So: base.So}
+		return Val{T: u.subSlice(base, lo, hi), Ty: rt, So: base.So}
 	case *types.Array:
 		so := u.sortOf(rt)
 		if hi == "" {
 			hi = strconv.FormatInt(bt.Len(), 10)
 		}
 		u.safe("slice", x.Pos(), st, sAnd(app("<=", "0", lo), app("<=", lo, hi), app("<=", hi, strconv.FormatInt(bt.Len(), 10))), "0 <= lo <= hi <= len(array)")
-		return Val{T: u.mkSlice(so, base.T, lo, sSub(hi, lo), "false"), Ty: rt, So: so}
+		return Val{T: u.subSlice(Val{T: u.mkSlice(so, base.T, "0", strconv.FormatInt(bt.Len(), 10), "false"), Ty: rt, So: so}, lo, hi), Ty: rt, So: so}
 	}
 	u.unsupported(x.Pos(), "slice of %v", base.Ty)
 	return Val{}
